@@ -46,7 +46,7 @@ def gen_programs(ctx, families, per_family, rng):
     for f, r in zip(families, res):
         rows = vlib.read_ndjson(os.path.join(r["dir"], "cases.ndjson"))
         total[f] = len(rows)
-        if per_family and len(rows) > per_family:
+        if per_family and len(rows) > max(per_family, 500):         # small families are taken whole
             # programs with a reference cycle are where the link order can matter: take them first
             cyc = [r for r in rows if r.get("cyc")]
             rest = [r for r in rows if not r.get("cyc")]
